@@ -171,6 +171,53 @@ func init() {
 		})
 		f.nat("HandleMsgHashCapSites", caps)
 		f.raw("def HandleMsgBlockCapCond : String := %q\n", blockCap)
+		// every statement of handleMsg that writes request.Amount, with the if that guards it ("<init>; <cond> => <assignment>"):
+		// the two caps, and the recomputation in the `last == nil` branch, which must be guarded by `available < request.Amount`
+		var amountWrites []string
+		ast.Inspect(hm.Body, func(n ast.Node) bool {
+			x, ok := n.(*ast.IfStmt)
+			if !ok {
+				return true
+			}
+			for _, st := range x.Body.List {
+				as, ok := st.(*ast.AssignStmt)
+				if !ok || len(as.Lhs) != 1 || exprStr(fset, as.Lhs[0]) != "request.Amount" {
+					continue
+				}
+				g := exprStr(fset, x.Cond)
+				if x.Init != nil {
+					g = exprStr(fset, x.Init) + "; " + g
+				}
+				amountWrites = append(amountWrites, g+" => "+exprStr(fset, as))
+			}
+			return true
+		})
+		f.strList("HandleMsgAmountWrites", amountWrites)
+
+		// ---- AST of momentumStore.GetMomentumsByHash: the nil test on the looked-up momentum ----------------
+		mf, err := parser.ParseFile(fset, filepath.Join(repo, "chain", "momentum", "momentum.go"), nil, 0)
+		if err != nil {
+			return nil, err
+		}
+		gm := findFuncE(mf, "GetMomentumsByHash")
+		if gm == nil {
+			return nil, fmt.Errorf("chain/momentum/momentum.go: func GetMomentumsByHash not found")
+		}
+		var gmStmts []string
+		for _, st := range gm.Body.List {
+			switch x := st.(type) {
+			case *ast.IfStmt:
+				body := make([]string, len(x.Body.List))
+				for i, b := range x.Body.List {
+					body[i] = exprStr(fset, b)
+				}
+				gmStmts = append(gmStmts, "if "+exprStr(fset, x.Cond)+" { "+strings.Join(body, "; ")+" }")
+			default:
+				gmStmts = append(gmStmts, exprStr(fset, st))
+			}
+		}
+		f.raw("-- chain/momentum/momentum.go GetMomentumsByHash (AST of the working tree)\n")
+		f.strList("GetMomentumsByHashStmts", gmStmts)
 		return f, nil
 	})
 }
